@@ -277,6 +277,28 @@ def force_three_asset_portfolio(rng, spec):
     return True
 
 
+def force_share_portfolio_with_own_lag(rng, spec):
+    """Zone 0: deposits held by households through a fixed share of 0.5 (the builder then lets the holder declare the lag of
+    its own deposit holding), a non-zero interest rate, no bonds."""
+    z = spec['zones'][0]
+    g = z['gov']
+    if g['form'] == 'gold':
+        return False
+    n = spec['maxtime'] + 3
+    g['deposits'] = True
+    g['money'] = g['money'] or g['form'] != 'consolidated'
+    g['r'] = [rng.choice([0.01, 0.02, 0.025, 0.04]) for _ in range(n)]
+    g.pop('bonds', None)
+    for c in z['countries']:
+        if c['role'] != 'central':
+            hh = c['hh']
+            hh['portfolio'] = 'share'
+            hh['share'] = 0.5
+            hh.pop('bond_share', None)
+            hh['F0'] = hh['F0'] or float(rng.randint(40, 120))
+    return True
+
+
 def ensure_cross_import(rng, spec):
     """At least one market supplied from another currency zone (needs >= 2 zones and the external sector)."""
     if len(spec['zones']) < 2 or not spec['ext'] or spec['imports']:
@@ -590,6 +612,11 @@ def _build(spec, model=None, holder=None, order_seed=None, codes=None, ckey_map=
                     # three assets through the library's weighting helper: deposits, bonds, money as the residual
                     hh.GenerateAssetWeighting({'DEP': repr(hs['share'] * 0.5), 'BOND': repr(bs)}, 'MON')
                 elif hs['portfolio'] == 'share':
+                    if hs['share'] == 0.5:
+                        # the holder declares the lag of its own deposit holding itself (as a portfolio rule built on
+                        # last period's holding would): the deposit market must still pay it interest
+                        hh.AddVariable('LAG_DEM_DEP', 'Lagged deposit holding (declared by the holder)', 'DEM_DEP(k-1)')
+                        b.predeclared_lag = getattr(b, 'predeclared_lag', 0) + 1
                     hh.AddVariable('DEM_DEP', 'Demand for deposits', '%r * F' % (hs['share'],))
                     if g['money']:
                         hh.AddVariable('DEM_MON', 'Demand for money', '%r * F' % (1.0 - hs['share'],))
